@@ -17,7 +17,14 @@ def render_class(I, u):
             return None
         from measured import formatting
 
-        magnitude, terms = formatting._unit_to_magnitude_and_terms(u)
+        try:
+            magnitude, terms = formatting._unit_to_magnitude_and_terms(u)
+        except Exception as e:
+            # e.g. a prefix left with a float exponent like 2**-7e-15 after binary and decimal
+            # prefixes cancelled: printing it hits superscript('e') -> KeyError
+            if isinstance(getattr(u.prefix, "exponent", 0), float):
+                return "str-raises:%s/float-exponent-prefix" % type(e).__name__
+            return "str-raises:%s" % type(e).__name__
         if magnitude != 1:
             return "magnitude-emitted"
         for prefix, symbol, exponent in terms:
@@ -117,6 +124,15 @@ class C13Clauses(Clauses):
         name = op["op"]
         if rec.get("injected"):
             return None
+        if name == "render" and exc is not None and op.get("how") == "str" and prepared:
+            x = prepared[0][0]
+            xu0 = x if op["kind"] == "unit" else getattr(x, "unit", x)
+            cls = render_class(I, xu0) or "plain"
+            I.count("C13.render.raised")
+            I.violation("C13.render", "C13/str-raises/%s" % (cls if cls.startswith("str-raises") else
+                                                              "str-raises:%s/%s" % (type(exc).__name__, cls)),
+                        {"of": M.nf_str(prepared[0][1]) if prepared[0][1] else None, "error": type(exc).__name__})
+            return {"C13.render": "VIOLATED"}
         if name == "render" and exc is None and op.get("how") == "str" and "id" in op:
             x = prepared[0][0]
             xu0 = x if op["kind"] == "unit" else x.unit
